@@ -452,6 +452,26 @@ class Normalizer:
                 del stmts[i]
                 continue
             i += 1
+        # g = (self._a if c else self._b); y = g(args)   is   if c: y = self._a(args) else: y = self._b(args)
+        i = 0
+        while i + 1 < len(stmts):
+            a, nxt = stmts[i], stmts[i + 1]
+            if isinstance(a, ast.Assign) and len(a.targets) == 1 and isinstance(a.targets[0], ast.Name) and isinstance(a.value, ast.IfExp) \
+                    and all(isinstance(x, (ast.Attribute, ast.Name)) for x in (a.value.body, a.value.orelse)) \
+                    and isinstance(nxt, (ast.Assign, ast.Expr, ast.Return, ast.AugAssign)):
+                g = a.targets[0].id
+                uses = [n for n in ast.walk(nxt) if isinstance(n, ast.Name) and n.id == g]
+                called = [n for n in ast.walk(nxt) if isinstance(n, ast.Call) and isinstance(n.func, ast.Name) and n.func.id == g]
+                later = any(isinstance(n, ast.Name) and n.id == g for x in stmts[i + 2:] for n in ast.walk(x))
+                if len(uses) == 1 and len(called) == 1 and not later:
+                    arms = []
+                    for alt_ in (a.value.body, a.value.orelse):
+                        arms.append(_SubstName({g: alt_}).visit(copy.deepcopy(nxt)))
+                    new_if = ast.copy_location(ast.If(test=a.value.test, body=[arms[0]], orelse=[arms[1]]), a)
+                    ast.fix_missing_locations(new_if)
+                    stmts[i:i + 2] = [new_if]
+                    continue
+            i += 1
         # k = 0; while k < n: BODY; k += 1   is   for k in range(n): BODY   (n not written in BODY, no continue)
         i = 0
         while i + 1 < len(stmts):
